@@ -453,5 +453,6 @@ func (env *ExecEnv) Eval(expr string) (n int, err error) {
 	}()
 
 	yyParse(l)
+	vpoint(l, vReturn)
 	return l.n, l.err
 }
